@@ -3,6 +3,8 @@ package props
 // Registry maps a property id to its check.
 var Registry = map[string]func(tier, replay string) int{
 	"C12": RunC12,
+	"C13": RunC13,
+	"C14": RunC14,
 }
 
 // Worker dispatches worker-subprocess modes (generation, scanning) used by the scratch pipeline.
